@@ -134,6 +134,7 @@ type GenParams struct {
 	SmallEfC                                                                                      bool // efConstruction 8 so that batches of >=8 take the parallel path
 	BigBatch                                                                                      bool
 	RecreatePct                                                                                   int // after a drop of an existing index: percentage of cases in which the same name is created again at once and written to
+	SnapEmptyPct                                                                                  int // after a successful create: percentage of cases in which a snapshot (or a log compaction) is taken while the index is still empty
 }
 
 // shadow state kept by the generator only to bias towards valid / interesting ops
@@ -592,6 +593,16 @@ func GenHistory(p GenParams) *rapid.Generator[[]Op] {
 				op.Task = rapid.SampledFrom([]string{"vacuum", "refine", "vacuum"}).Draw(t, "task")
 			}
 			ops = append(ops, op)
+			// a snapshot or compaction of a freshly created, still empty index (its derived state - quantiser range,
+			// dimension - then exists only in the log that follows)
+			if op.K == KCreate && op.Why == "" && p.SnapEmptyPct > 0 && sh.idx[op.Idx] != nil && len(sh.idx[op.Idx].live) == 0 &&
+				rapid.IntRange(0, 99).Draw(t, "snap-empty") < p.SnapEmptyPct {
+				if rapid.IntRange(0, 3).Draw(t, "snap-empty-kind") == 0 {
+					ops = append(ops, Op{K: KRewrite})
+				} else {
+					ops = append(ops, Op{K: KSnapshot})
+				}
+			}
 			// a second compression of the same index right behind the first (its backup directory may still exist)
 			if op.K == KCompress && sh.idx[op.Idx] != nil && rapid.IntRange(0, 2).Draw(t, "compress-again") == 0 {
 				again := Op{K: KCompress, Idx: op.Idx, Prec: rapid.SampledFrom([]string{"float16", "float32", "float16"}).Draw(t, "target2")}
